@@ -218,10 +218,41 @@ func checkC07(c *Check) {
 		})
 	}
 	if fi := L.Fn("cmd/kddp.main"); fi != nil {
-		// main: if err := rootCmd.Execute(); err != nil { ...; os.Exit(1) }
+		// main: the error of rootCmd.Execute() is tested against nil and the non-nil arm reaches os.Exit
+		// (`if err := rootCmd.Execute(); err != nil {...}` or the two-statement form; the variable's name does not matter)
 		okm := false
+		var errObj types.Object
 		ast.Inspect(fi.Decl.Body, func(n ast.Node) bool {
-			if is, ok := n.(*ast.IfStmt); ok && is.Init != nil && strings.Contains(L.Src(is.Init), ".Execute()") && strings.Contains(L.Src(is.Cond), "err != nil") {
+			if as, ok := n.(*ast.AssignStmt); ok && len(as.Lhs) == 1 && len(as.Rhs) == 1 {
+				if call, ok := ast.Unparen(as.Rhs[0]).(*ast.CallExpr); ok {
+					if fn := Callee(minfo, call); fn != nil && fn.Name() == "Execute" {
+						if id, ok := as.Lhs[0].(*ast.Ident); ok {
+							errObj = minfo.Defs[id]
+							if errObj == nil {
+								errObj = minfo.Uses[id]
+							}
+						}
+					}
+				}
+			}
+			return true
+		})
+		ast.Inspect(fi.Decl.Body, func(n ast.Node) bool {
+			is, ok := n.(*ast.IfStmt)
+			if !ok || errObj == nil {
+				return true
+			}
+			be, ok := ast.Unparen(is.Cond).(*ast.BinaryExpr)
+			if !ok || be.Op != token.NEQ {
+				return true
+			}
+			tests := false
+			for _, p := range [][2]ast.Expr{{be.X, be.Y}, {be.Y, be.X}} {
+				if id, ok := ast.Unparen(p[0]).(*ast.Ident); ok && minfo.Uses[id] == errObj && minfo.Types[p[1]].IsNil() {
+					tests = true
+				}
+			}
+			if tests {
 				ast.Inspect(is.Body, func(m ast.Node) bool {
 					if call, ok := m.(*ast.CallExpr); ok {
 						if fn := Callee(minfo, call); fn != nil && fn.Pkg() != nil && fn.Pkg().Name() == "os" && fn.Name() == "Exit" {
